@@ -280,6 +280,10 @@ def build_matrix_groups(chk):
         lo_off = hi_off = 0
         if isinstance(ptext, tuple):
             ptext, lo_off, hi_off = ptext
+            # a failing call is reported where the call starts; for the other multi-line constructs any line from the start of
+            # the enclosing expression to its end is accepted (the line must still be the line of the start of the range)
+            if not any(x in ptext for x in ("nofunc(", "nomethod(", "nomacro(", "range(", "join(", "include [")):
+                hi_off = ptext.count("\n")
         which = [i for i, t in enumerate(tpls) if "@" in t][0]
         t = tpls[which]
         at = t.index("@")
@@ -299,7 +303,7 @@ def build_matrix_groups(chk):
             nl = rng.choice([1, 3])
             variants.append({"n": nl, "h": 0, "pb": nl * 2, "hb": 0, "at": 0, "where": "top", "pad": "x\n", "tpls": mk([(nl, "x\n"), (1, pre + ptext + post)])})
         api = rng.choice([0, 1] + ([2, 3] if len(tpls) == 1 else []))
-        groups.append({"family": "runtime", "matrix": True, "construct": cname, "plant": ptext, "which": which, "pline": pline + lo_off, "pend": pline + hi_off,
+        groups.append({"family": "runtime", "matrix": True, "construct": cname, "plant": ptext, "which": which, "pline": pline, "pend": pline + hi_off,   # from the first line of the enclosing expression / statement to the failing part
                        "pstart": pline, "sizable": True,
                        "pkind": 0, "flags": (um << 7) | (api << 4) | (rng.choice(WS_ALL) if rng.chance(1, 4) else 0), "variants": variants})
     return groups
@@ -1122,7 +1126,7 @@ def main():
             for vi, v in enumerate(g["variants"]):
                 if (g["family"] == "syntax" and vi > 1) or g["family"] == "expr":
                     continue
-                if v["n"] > 300 or v["h"] > 300:
+                if v["n"] > 300 or v["h"] > 300 or "size" in v:
                     continue
                 for ti, t in enumerate(v["tpls"]):
                     c = [3, g.get("flags", 0) & 14] + enc_src(t)
@@ -1237,11 +1241,20 @@ def main():
     kf = chk.match_known(lambda k: k["id"] == "empty-expression-unlocated")
     kf_str = chk.match_known(lambda k: k["id"] == "lexer-error-after-string-swallowed")
     kf_imp = chk.match_known(lambda k: k["id"] == "import-first-instructions-stale-line")
+    kf_call = chk.match_known(lambda k: k["id"] == "call-reported-on-last-argument-line")
     for gi, fails in pipe_fail:
         g = groups[gi]
         blank_expr = bool(g.get("flags", 0) & 64) and text_of(g["variants"][0]["tpls"][0]).strip() == ""
         imp_rec = g.get("construct", "").startswith("recursion-") and any(("{% import" in text_of(t) or "{% from" in text_of(t)) for t in g["variants"][0]["tpls"])
+        ml_call = (g.get("matrix") and isinstance(g.get("plant"), str) and "\n" in g["plant"]
+                   and any(x in g["plant"] for x in ("nofunc(", "nomethod(", "nomacro(", "range(", "join(")))
         for what, vi in fails:
+            if kf_call and ml_call and what.startswith("planted in t%d line %d, root cause reported in t%d line " % (g["which"], g["pline"], g["which"])):
+                got = int(what.rsplit(" ", 1)[1])
+                if g["pstart"] < got <= g["pstart"] + g["plant"].count("\n"):
+                    chk.known_finding(kf_call["id"], "a call with arguments / a body on several lines is reported on a later line of the construct: %r (starts on line %d, reported on line %d)"
+                                      % (g["plant"], g["pstart"], got))
+                    continue
             if kf_str and g.get("after_string") and what.startswith("an illegal character planted"):
                 chk.known_finding(kf_str["id"], "a lexer error right after a string literal is swallowed: %r reports the end of the input on the line of the string"
                                   % text_of(g["variants"][0]["tpls"][0]))
